@@ -68,11 +68,18 @@ package ipfix
 //@   ensures old(len(r.data)) < 8 && be16(r.base, old(r.count)) >= 32768 ==> err != nil
 //@   modifies f, r.data, r.count
 
+//@ pred specAt(f TemplateFieldSpecifier, b []byte, c mathint) = f.Length == be16(b, c+2)
+//@     && (be16(b, c) < 32768 ==> f.ElementID == be16(b, c) && f.EnterpriseNo == 0)
+//@     && (be16(b, c) >= 32768 ==> f.ElementID == be16(b, c) - 32768 && f.EnterpriseNo == be32(b, c+4))
+//@ spec specLen(b []byte, c mathint) mathint = be16(b, c) < 32768 ? 4 : 8
+//@ pred specAppended(fs []TemplateFieldSpecifier, before []TemplateFieldSpecifier, r *reader.Reader, c0 mathint) = len(fs) == len(before) + 1 && fs.off == before.off
+//@     && (forall q :: before.off <= q && q < before.off + len(before) ==> fs.arr[q] == before.arr[q]) && specAt(fs[len(before)], r.base, c0) && r.count == c0 + specLen(r.base, c0)
+
 //@ func (*TemplateRecord).unmarshal
 //@   requires rdr(r)
 //@   ensures inv(r) && r.base == old(r.base) && r.count >= old(r.count)
 //@   ensures err == nil ==> r.count >= old(r.count) + 4 && tr.TemplateID == be16(r.base, old(r.count)) && tr.FieldCount == be16(r.base, old(r.count)+2)
-//@   ensures err == nil ==> len(tr.FieldSpecifiers) == old(len(tr.FieldSpecifiers)) + tr.FieldCount
+//@   ensures err == nil ==> len(tr.FieldSpecifiers) == old(len(tr.FieldSpecifiers)) + tr.FieldCount && len(tr.ScopeFieldSpecifiers) == old(len(tr.ScopeFieldSpecifiers))
 //@   ensures err == nil ==> r.count >= old(r.count) + 4 + 4*tr.FieldCount
 //@   modifies tr, r.data, r.count
 //@   loop 1
@@ -81,22 +88,26 @@ package ipfix
 //@     invariant th.TemplateID == be16(r.base, old(r.count)) && th.FieldCount == be16(r.base, old(r.count)+2)
 //@     invariant len(tr.FieldSpecifiers) == old(len(tr.FieldSpecifiers)) + (th.FieldCount - i)
 //@     invariant r.count >= old(r.count) + 4 + 4*(th.FieldCount - i)
+//@     step [spec] specAppended(tr.FieldSpecifiers, iter(tr.FieldSpecifiers), r, iter(r.count)) && tr.ScopeFieldSpecifiers == iter(tr.ScopeFieldSpecifiers)
 //@     decreases i
 
 //@ func (*TemplateRecord).unmarshalOpts
 //@   requires rdr(r)
 //@   ensures inv(r) && r.base == old(r.base) && r.count >= old(r.count)
 //@   ensures err == nil ==> r.count >= old(r.count) + 6 && tr.TemplateID == be16(r.base, old(r.count)) && tr.FieldCount == be16(r.base, old(r.count)+2) && tr.ScopeFieldCount == be16(r.base, old(r.count)+4)
+//@   ensures [lengths] err == nil ==> len(tr.ScopeFieldSpecifiers) == old(len(tr.ScopeFieldSpecifiers)) + tr.ScopeFieldCount && len(tr.FieldSpecifiers) == old(len(tr.FieldSpecifiers)) + (tr.FieldCount - tr.ScopeFieldCount) % 65536
 //@   modifies tr, r.data, r.count
 //@   loop 1
 //@     invariant rdr(r) && r.base == old(r.base) && tr != nil && r.count >= old(r.count) + 6
 //@     invariant tr.TemplateID == be16(r.base, old(r.count)) && tr.FieldCount == be16(r.base, old(r.count)+2) && tr.ScopeFieldCount == be16(r.base, old(r.count)+4)
-//@     invariant 0 <= i
+//@     invariant 0 <= i && i <= th.ScopeFieldCount && th.ScopeFieldCount == tr.ScopeFieldCount && th.FieldCount == tr.FieldCount && len(tr.ScopeFieldSpecifiers) == old(len(tr.ScopeFieldSpecifiers)) + (th.ScopeFieldCount - i) && len(tr.FieldSpecifiers) == old(len(tr.FieldSpecifiers))
+//@     step [scope] specAppended(tr.ScopeFieldSpecifiers, iter(tr.ScopeFieldSpecifiers), r, iter(r.count)) && tr.FieldSpecifiers == iter(tr.FieldSpecifiers)
 //@     decreases i
 //@   loop 2
 //@     invariant rdr(r) && r.base == old(r.base) && tr != nil && r.count >= old(r.count) + 6
 //@     invariant tr.TemplateID == be16(r.base, old(r.count)) && tr.FieldCount == be16(r.base, old(r.count)+2) && tr.ScopeFieldCount == be16(r.base, old(r.count)+4)
-//@     invariant 0 <= i
+//@     invariant 0 <= i && i <= (th.FieldCount - th.ScopeFieldCount) % 65536 && th.ScopeFieldCount == tr.ScopeFieldCount && th.FieldCount == tr.FieldCount && len(tr.ScopeFieldSpecifiers) == old(len(tr.ScopeFieldSpecifiers)) + th.ScopeFieldCount && len(tr.FieldSpecifiers) == old(len(tr.FieldSpecifiers)) + ((th.FieldCount - th.ScopeFieldCount) % 65536 - i)
+//@     step [option] specAppended(tr.FieldSpecifiers, iter(tr.FieldSpecifiers), r, iter(r.count)) && tr.ScopeFieldSpecifiers == iter(tr.ScopeFieldSpecifiers)
 //@     decreases i
 
 // ---- data records -------------------------------------------------------------------------------
@@ -117,6 +128,19 @@ package ipfix
 //@   ensures isVarLen(t, fieldSpecifierLen) && err == nil ==> d.reader.count > old(d.reader.count)
 //@   modifies d.reader.data, d.reader.count
 
+// One iteration of the field loops (RFC 7011 3.4 and 7): the field described by specifier fs is looked up in
+// the information model, its length is the template length or, for a variable-length string/octetArray
+// (template length 65535), the 1-octet prefix (or 255 followed by a 2-octet length); the decoded field carries
+// the element id, the enterprise number and the interpretation of exactly those octets; earlier fields are kept.
+//@ spec varPrefix(b []byte, c mathint) mathint = be8(b, c) < 255 ? 1 : 3
+//@ spec varLength(b []byte, c mathint) mathint = be8(b, c) < 255 ? be8(b, c) : be16(b, c+1)
+//@ pred fdModel(fs TemplateFieldSpecifier, m InfoElementEntry) = has(InfoModel, mkstruct(ElementKey, fs.EnterpriseNo, fs.ElementID)) && m == InfoModel[mkstruct(ElementKey, fs.EnterpriseNo, fs.ElementID)]
+//@ pred fdKept(fields []DecodedField, before []DecodedField) = len(fields) == len(before) + 1 && fields.off == before.off && (forall q :: before.off <= q && q < before.off + len(before) ==> fields.arr[q] == before.arr[q])
+//@ pred fdLength(fs TemplateFieldSpecifier, m InfoElementEntry, n mathint, r *reader.Reader, c0 mathint) = n == (isVarLen(m.Type, fs.Length) ? varLength(r.base, c0) : fs.Length)
+//@ pred fdAdvance(fs TemplateFieldSpecifier, m InfoElementEntry, n mathint, r *reader.Reader, c0 mathint) = r.count == c0 + (isVarLen(m.Type, fs.Length) ? varPrefix(r.base, c0) : 0) + n
+//@ pred fdValue(f DecodedField, fs TemplateFieldSpecifier, m InfoElementEntry, n mathint, r *reader.Reader) = f.ID == m.FieldID && f.EnterpriseNo == fs.EnterpriseNo
+//@     && f.Value == interpU(r.base.arr, r.base.off + r.count - n, n, m.Type)
+
 //@ func (*Decoder).decodeData
 //@   requires rdr(d.reader)
 //@   ensures rdr(d.reader) && d.reader.base == old(d.reader.base) && d.raddr == old(d.raddr) && d.reader.count >= old(d.reader.count)
@@ -127,10 +151,20 @@ package ipfix
 //@   loop 1
 //@     invariant rdr(d.reader) && d.reader.base == old(d.reader.base) && d.raddr == old(d.raddr) && d.reader.count >= old(d.reader.count) && r == d.reader
 //@     invariant 0 <= i && i <= len(tr.ScopeFieldSpecifiers) && len(fields) == i
+//@     step [model] fdModel(tr.ScopeFieldSpecifiers[i], m)
+//@     step [kept] fdKept(fields, iter(fields))
+//@     step [length] fdLength(tr.ScopeFieldSpecifiers[i], m, readLength, d.reader, iter(d.reader.count))
+//@     step [advance] fdAdvance(tr.ScopeFieldSpecifiers[i], m, readLength, d.reader, iter(d.reader.count))
+//@     step [value] fdValue(fields[len(fields)-1], tr.ScopeFieldSpecifiers[i], m, readLength, d.reader)
 //@     decreases len(tr.ScopeFieldSpecifiers) - i
 //@   loop 2
 //@     invariant rdr(d.reader) && d.reader.base == old(d.reader.base) && d.raddr == old(d.raddr) && d.reader.count >= old(d.reader.count) && r == d.reader
 //@     invariant 0 <= i && i <= len(tr.FieldSpecifiers) && len(fields) == len(tr.ScopeFieldSpecifiers) + i
+//@     step [model] fdModel(tr.FieldSpecifiers[i], m)
+//@     step [kept] fdKept(fields, iter(fields))
+//@     step [length] fdLength(tr.FieldSpecifiers[i], m, readLength, d.reader, iter(d.reader.count))
+//@     step [advance] fdAdvance(tr.FieldSpecifiers[i], m, readLength, d.reader, iter(d.reader.count))
+//@     step [value] fdValue(fields[len(fields)-1], tr.FieldSpecifiers[i], m, readLength, d.reader)
 //@     decreases len(tr.FieldSpecifiers) - i
 
 // ---- sets and messages --------------------------------------------------------------------------
@@ -140,6 +174,10 @@ package ipfix
 //@   ensures result != nil && result.raddr == raddr && rdr(result.reader) && result.reader.base == b && result.reader.count == 0
 
 //@ func (*Decoder).decodeSet
+//@   callassert insert: sameview(arg1, d.raddr) && arg0 == arg2.TemplateID   // a parsed template is stored under the exporter's own address and its own id
+//@   callassert insert: setHeader.SetID == 2 ==> len(arg2.FieldSpecifiers) == arg2.FieldCount && len(arg2.ScopeFieldSpecifiers) == 0   // exactly the specifiers of this template record, nothing left over from an earlier one
+//@   callassert insert: setHeader.SetID == 3 ==> len(arg2.ScopeFieldSpecifiers) == arg2.ScopeFieldCount && len(arg2.FieldSpecifiers) == (arg2.FieldCount - arg2.ScopeFieldCount) % 65536
+//@   callassert retrieve: arg0 == setHeader.SetID && sameview(arg1, d.raddr)
 //@   requires rdr(d.reader) && msg != nil && wellFormed(mem) && len(d.reader.base) <= 65535
 //@   ensures rdr(d.reader) && d.reader.base == old(d.reader.base) && d.raddr == old(d.raddr) && d.reader.count >= old(d.reader.count) && wellFormed(mem)
 //@   ensures [hdr] err == nil || nonfatal(err) ==> old(len(d.reader.data)) >= 4 && be16(d.reader.base, old(d.reader.count)+2) >= 4
@@ -162,6 +200,8 @@ package ipfix
 //@     invariant [kept] msg.DataSets.off == old(msg.DataSets.off) && (forall q :: msg.DataSets.off <= q && q < msg.DataSets.off + old(len(msg.DataSets)) ==> msg.DataSets.arr[q] == old(msg.DataSets.arr)[q])
 //@     invariant [nodata] setHeader.SetID <= 255 ==> len(msg.DataSets) == old(len(msg.DataSets))
 //@     invariant [unk] setHeader.SetID > 255 && !cacheHas(old(mem), d.raddr, setHeader.SetID) ==> err != nil && len(msg.DataSets) == old(len(msg.DataSets))
+//@     invariant [tpl] setHeader.SetID > 255 && cacheHas(old(mem), d.raddr, setHeader.SetID) ==> tr == cacheGet(old(mem), d.raddr, setHeader.SetID)   // every record of the set is decoded with the template retrieved for (exporter, set id)
+//@     step [record] len(msg.DataSets) == iter(len(msg.DataSets)) || (len(msg.DataSets) == iter(len(msg.DataSets)) + 1 && setHeader.SetID > 255)
 //@     decreases len(d.reader.data) + (err == nil ? 1 : 0)
 
 //@ func (*Decoder).Decode
@@ -196,8 +236,37 @@ package ipfix
 //@ func (FieldType).minLen
 //@   ensures result == specMinLen(t)
 
+// RFC 7011 6.1: a field is interpreted according to the abstract data type of its element when it has
+// at least the type's natural size (big-endian, two's complement for the signed types, IEEE bit pattern
+// for floats, 1 = true for booleans); a field encoded shorter than that is passed on as raw octets.
+// For a field longer than the natural size the statement is silent; the leading octets are used (code-derived).
+//@ spec sgn(v mathint, bits mathint) mathint = v >= bits / 2 ? v - bits : v
+//@ pred rawOctets(r any, b []byte) = iskind(r, bytes) && typeid(r) == tyof([]byte) && sameview(anybytes(r), b)
+// interpU names the function Interpret computes (Interpret is a pure function of the octets and the type:
+// no global state, no side effect); its properties are the proved clauses below
+//@ uninterp interpU(a [0]byte, off mathint, n mathint, t FieldType) any
 //@ func Interpret
 //@   requires b != nil
+//@   ensures [trusted.def] result == interpU(val(b).arr, val(b).off, len(val(b)), t)
+//@   ensures [short] len(val(b)) < specMinLen(t) ==> rawOctets(result, val(b))
+//@   ensures [bool] t == Boolean && len(val(b)) >= 1 ==> iskind(result, bool) && (anybool(result) <==> val(b)[0] == 1)
+//@   ensures [u8] t == Uint8 && len(val(b)) >= 1 ==> iskind(result, int) && typeid(result) == tyof(uint8) && anyint(result) == val(b)[0]
+//@   ensures [u16] t == Uint16 && len(val(b)) >= 2 ==> iskind(result, int) && typeid(result) == tyof(uint16) && anyint(result) == be16(val(b), 0)
+//@   ensures [u32] t == Uint32 && len(val(b)) >= 4 ==> iskind(result, int) && typeid(result) == tyof(uint32) && anyint(result) == be32(val(b), 0)
+//@   ensures [u64] t == Uint64 && len(val(b)) >= 8 ==> iskind(result, int) && typeid(result) == tyof(uint64) && anyint(result) == be64(val(b), 0)
+//@   ensures [i8] t == Int8 && len(val(b)) >= 1 ==> iskind(result, int) && typeid(result) == tyof(int8) && anyint(result) == sgn(val(b)[0], 256)
+//@   ensures [i16] t == Int16 && len(val(b)) >= 2 ==> iskind(result, int) && typeid(result) == tyof(int16) && anyint(result) == sgn(be16(val(b), 0), 65536)
+//@   ensures [i32] t == Int32 && len(val(b)) >= 4 ==> iskind(result, int) && typeid(result) == tyof(int32) && anyint(result) == sgn(be32(val(b), 0), 4294967296)
+//@   ensures [i64] t == Int64 && len(val(b)) >= 8 ==> iskind(result, int) && typeid(result) == tyof(int64) && anyint(result) == sgn(be64(val(b), 0), 18446744073709551616)
+//@   ensures [f32] t == Float32 && len(val(b)) >= 4 ==> iskind(result, int) && typeid(result) == tyof(float32) && anyint(result) == be32(val(b), 0)
+//@   ensures [f64] t == Float64 && len(val(b)) >= 8 ==> iskind(result, int) && typeid(result) == tyof(float64) && anyint(result) == be64(val(b), 0)
+//@   ensures [mac] t == MacAddress && len(val(b)) >= 6 ==> iskind(result, bytes) && typeid(result) == tyof(net.HardwareAddr) && sameview(anybytes(result), val(b))
+//@   ensures [string] t == String ==> iskind(result, str) && anystr(result) == strof(val(b))
+//@   ensures [ipv4] t == Ipv4Address && len(val(b)) >= 4 ==> iskind(result, bytes) && typeid(result) == tyof(net.IP) && sameview(anybytes(result), val(b))
+//@   ensures [ipv6] t == Ipv6Address && len(val(b)) >= 16 ==> iskind(result, bytes) && typeid(result) == tyof(net.IP) && sameview(anybytes(result), val(b))
+//@   ensures [seconds] t == DateTimeSeconds && len(val(b)) >= 4 ==> iskind(result, int) && typeid(result) == tyof(uint32) && anyint(result) == be32(val(b), 0)
+//@   ensures [millis] (t == DateTimeMilliseconds || t == DateTimeMicroseconds || t == DateTimeNanoseconds) && len(val(b)) >= 8 ==> iskind(result, int) && typeid(result) == tyof(uint64) && anyint(result) == be64(val(b), 0)
+//@   ensures [octets] t == OctetArray || t == Unknown ==> rawOctets(result, val(b))
 
 // ---- template cache -----------------------------------------------------------------------------
 
